@@ -121,3 +121,82 @@ func verif_C16_body() {
 	verifAssert(be.find("Mail", "s@v") >= 0 && be.find("Rcpt", "r@v") >= 0 && be.count("Rcpt") == 1, "C16.envelope-arrives")
 	verifAssert(be.find("Mail", "marker@v") >= 0 && be.count("Mail") == 2, "C16.nothing-of-the-body-executed")
 }
+
+// verif_C16_envelope: "exactly the sender and recipient list given". A list of
+// up to three recipients drawn from two addresses (so that repeats occur), each
+// with nil or empty options, is handed to the client; every Rcpt is accepted.
+// The octets the client wrote are then served by the real server: the backend
+// must see exactly that list, in order, and in LMTP the status callback runs
+// once per successful Rcpt, in order.
+func verif_C16_envelope() {
+	n := nondetInt(1, 3)
+	addrs := []string{"a@v", "b@v"}
+	var list []string
+	script := "250 2.0.0 ok\r\n"
+	for i := 0; i < n; i++ {
+		list = append(list, addrs[verifChoice(2)])
+		script += "250 2.0.0 ok\r\n"
+	}
+	lmtp := nondetBool()
+	script += "354 go\r\n"
+	if lmtp {
+		for i := 0; i < n; i++ {
+			script += "250 2.0.0 ok\r\n"
+		}
+	} else {
+		script += "250 2.0.0 ok\r\n"
+	}
+	c, vc := verifClient(script, nil)
+	c.lmtp = lmtp
+	verifAssert(c.Mail("s@v", nil) == nil, "C16.env-mail-accepted")
+	for _, a := range list {
+		var o *RcptOptions
+		if nondetBool() {
+			o = &RcptOptions{}
+		}
+		verifAssert(c.Rcpt(a, o) == nil, "C16.env-rcpt-accepted")
+	}
+	var cb []string
+	var w io.WriteCloser
+	var err error
+	if lmtp {
+		w, err = c.LMTPData(func(rcpt string, st *SMTPError) { cb = append(cb, rcpt) })
+	} else {
+		w, err = c.Data()
+	}
+	verifAssert(err == nil, "C16.env-data-started")
+	if err != nil {
+		return
+	}
+	w.Write([]byte("x\r\n"))
+	verifAssert(w.Close() == nil, "C16.env-close")
+	if lmtp {
+		ok := len(cb) == n
+		for i := 0; ok && i < n; i++ {
+			ok = cb[i] == list[i]
+		}
+		verifAssert(ok, "C16.env-one-callback-per-accepted-recipient-in-order")
+	}
+	be := &vbackend{}
+	s, _ := verifServer(be)
+	s.LMTP = lmtp
+	hello := "EHLO c\r\n"
+	if lmtp {
+		hello = "LHLO c\r\n"
+	}
+	verifServe(s, append([]byte(hello), vc.out...), io.EOF)
+	var got []string
+	for _, e := range be.trace {
+		if e.kind == "Rcpt" {
+			got = append(got, e.arg)
+		}
+	}
+	verifObserve("c16env", n, lmtp, len(got), len(cb))
+	ok := len(got) == n
+	for i := 0; ok && i < n; i++ {
+		ok = got[i] == list[i]
+	}
+	verifAssert(ok, "C16.env-backend-sees-exactly-the-recipient-list")
+	verifAssert(be.find("Mail", "s@v") >= 0 && be.count("Mail") == 1 && be.count("Data") == 1, "C16.env-one-transaction")
+	verifReach("C16.env-end")
+}
